@@ -1,7 +1,9 @@
 (* C03 driver: the Go-shaped model (extracted from Model/PvmGo.v, repaired shape) predicts the outcome class of
-   every case - never a Go panic - and the allocation bound; the measured allocation a=<bytes> printed by the
-   harness is replaced by a=ok when it is within the bound, and k=<exit kind> is compared only where the model
-   fixes it (k=* otherwise). *)
+   every case - never a Go panic - and its allocation account. The measured allocation a=<bytes> printed by the
+   harness is replaced by a=ok when it is at most 21/20 of the model's exact account plus a fixed slack per kind
+   of call (the slack covers what is not a make of the modelled code: error values, the Host struct, the page
+   map's buckets, copies a run makes out of mapped memory) AND that account is within the proved bound
+   (C03_alloc_bound); k=<exit kind> is compared only where the model fixes it (k=* otherwise). *)
 let spare n = List.init n (fun _ -> byte_tab.(0xAA))
 let slice hex xcap = mk_slice (bytes_of_hex hex) (spare xcap)
 let sn = string_of_n
@@ -11,13 +13,18 @@ let huh = "18446744073709551607"
 (* storage of the page map itself (Go runtime map growth, not a make of the code): at most 128 bytes per mapped page *)
 let map_overhead s alen = ZA.div (za (declared s alen)) (ZA.of_int 32)
 
-(* expected output and allocation bound *)
+(* limit for the measured allocation: 21/20 * account + slack; an account above the proved bound gives limit -1 *)
+let limit (account : n) (proved : n) (slack : ZA.t) : ZA.t =
+  if ZA.gt (za account) (za proved) then ZA.minus_one
+  else ZA.add (ZA.div (ZA.mul (za account) (ZA.of_int 21)) (ZA.of_int 20)) slack
+
+(* expected output and the limit for the measured allocation *)
 let model toks : string * ZA.t =
   let zero = ZA.zero in
   match toks with
   | [ "deblob"; hx; xc ] -> (
     let s = slice hx (int_of_string xc) in
-    let bound = za (deblob_bound_of s) in
+    let bound = limit (alloc_deblob s) (deblob_bound_of s) (ZA.of_int 512) in
     match deblob_go true true s with
     | Ok g ->
       ( Printf.sprintf "ok ni=%s nb=%s js=%s jl=%s jd=%s sb=%d a=ok" (sn g.gp_ni) (sn g.gp_nb) (sn g.gp_js) (sn g.gp_jl)
@@ -42,7 +49,8 @@ let model toks : string * ZA.t =
   | [ "init"; hx; al; xc ] -> (
     let s = slice hx (int_of_string xc) in
     let alen = n_of_string al in
-    let bound = ZA.add (za (alloc_bound_of s alen)) (map_overhead s alen) in
+    let account = match single_initializer_go true s alen with Ok io -> io.io_alloc | _ -> N0 in
+    let bound = limit account (alloc_bound_of s alen) (ZA.add (ZA.of_int 512) (map_overhead s alen)) in
     match single_initializer_go true s alen with
     | Ok io ->
       ( Printf.sprintf "ok c=%s pg=%s hp=%s hl=%s a=ok" (sn io.io_c.g_len) (sn io.io_pages) (sn io.io_hp) (sn io.io_hl),
@@ -53,8 +61,11 @@ let model toks : string * ZA.t =
   | [ "psim"; hx; al; _gas ] -> (
     let s = slice hx 0 in
     let alen = n_of_string al in
-    (* load bound + what a run may copy out of the mapped memory (halt output, machine's blob) *)
-    let bound = ZA.add (ZA.add (za (alloc_bound_of s alen)) (map_overhead s alen)) (ZA.add (za (declared s alen)) (za k_FIXED)) in
+    (* slack: the Host, host-call buffers, and what a run may copy out of the mapped memory (halt output, machine's blob) *)
+    let bound =
+      limit (alloc_load s alen) (alloc_bound_of s alen)
+        (ZA.add (ZA.add (ZA.of_int 8192) (map_overhead s alen)) (za (declared s alen)))
+    in
     let sbrk =
       match decode_serialized_values s with
       | Ok b -> ( match deblob_go true true b.sb_c with Ok g -> g.gp_sb | _ -> false)
@@ -69,7 +80,7 @@ let model toks : string * ZA.t =
       | OutOfFuel -> ("MODEL-FUEL", zero))
   | [ "mach"; hx; _i ] -> (
     let s = slice hx 0 in
-    let bound = ZA.add (za (deblob_bound_of s)) (za s.g_len) in
+    let bound = limit (alloc_deblob s) (deblob_bound_of s) (ZA.add (ZA.of_int 2048) (za s.g_len)) in
     match deblob_go true true s with
     | Ok _ -> ("r7=0 n=1 a=ok", bound)
     | Rej -> ("r7=" ^ huh ^ " n=0 a=ok", bound)
